@@ -724,9 +724,17 @@ func (w *c18PartialWriter) WriteString(s string) (int, error) { return w.Write([
 
 // c18Inner: the wrapped (user) handler of the cs / crypt sections: reads the body, sets an explicit status (st…), writes the
 // reply, panics (panic-… / abort) — in that order
+// c18BeforeRead: what happens between "the handler is entered" and "the handler reads its body" (inter ops: another
+// request goes through the same middleware meanwhile)
+var c18BeforeRead func()
+
 func c18Inner(got *c18Got, reply []byte, hk string) http.Handler {
 	return http.HandlerFunc(func(w http.ResponseWriter, r *http.Request) {
 		got.ran++
+		if f := c18BeforeRead; f != nil {
+			c18BeforeRead = nil
+			f()
+		}
 		got.seen, _ = io.ReadAll(r.Body)
 		if strings.HasPrefix(hk, "st") {
 			c18Outcome(w, hk)
@@ -738,6 +746,18 @@ func c18Inner(got *c18Got, reply []byte, hk string) http.Handler {
 			c18Outcome(w, hk)
 		}
 	})
+}
+
+// c18Unhex2sig: the signature field of request B of an inter op: over B's own body (own) or over A's (the header is A's)
+func c18Unhex2sig(kv map[string]string, ts, method, path, query string, bbody []byte, own bool) string {
+	sb := bbody
+	if !own {
+		sb = c18Unhex(kv["body"])
+	}
+	dg := sha256.Sum256(sb)
+	mac := hmac.New(sha256.New, c18Unhex(kv["sk"]))
+	mac.Write([]byte(strings.Join([]string{ts, method, path, query, hex.EncodeToString(dg[:])}, "\n")))
+	return base64.StdEncoding.EncodeToString(mac.Sum(nil))
 }
 
 func c18MutSig(sig, m string) string {
@@ -999,7 +1019,33 @@ func c18StartCs(cfg verifh.Cfg, dir string) (func(op []string) string, func()) {
 			var got c18Got
 			inner := c18Inner(&got, reply, kv["hk"])
 			scbCount = 0
+			// inter=<valid|forged|bare>: while request A sits in its handler (entered, body not yet read) request B goes through
+			// the SAME middleware: correctly signed for its own body / carrying A's signature over another body / without a header
+			interOut := ""
+			c18BeforeRead = nil
+			if ik := kv["inter"]; ik != "" {
+				bbody := c18Unhex(kv["bbody"])
+				c18BeforeRead = func() {
+					rB := httptest.NewRequest(method, "http://localhost"+target, bytes.NewReader(bbody))
+					bsig := ""
+					if ik != "bare" {
+						bsig = c18Unhex2sig(kv, ts, method, tu.Path, tu.RawQuery, bbody, ik == "valid")
+						rB.Header.Set(httpx.ContentSecurity, "key="+string(c18Unhex(kv["fp"]))+"; secret="+secret+"; signature="+bsig)
+					}
+					var gotB c18Got
+					recB := httptest.NewRecorder()
+					saved := scbCount
+					mw(c18Inner(&gotB, nil, "")).ServeHTTP(recB, rB)
+					scbCount = saved
+					okB := 0
+					if bytes.Equal(gotB.seen, bbody) {
+						okB = 1
+					}
+					interOut = fmt.Sprintf(" bsig=%s bran=%d bstatus=%d bseenok=%d", c18Hex([]byte(bsig)), gotB.ran, recB.Code, okB)
+				}
+			}
 			status, respBody := wire.send(kv["via"], c18Front(&got, mw(inner)), q)
+			c18BeforeRead = nil
 			if boundary && time.Now().Unix() != now && attempt < 5 {
 				continue // the second ticked while the request was being served: not a deterministic observation
 			}
@@ -1009,9 +1055,9 @@ func c18StartCs(cfg verifh.Cfg, dir string) (func(op []string) string, func()) {
 			if got.panicked {
 				status = "PANIC"
 			}
-			return fmt.Sprintf("now=%d p=%s q=%s cl=%d uripq=%s hdrs=%s rsa=%s aes=%s ran=%d status=%s seen=%s resp=%s scb=%d",
+			return fmt.Sprintf("now=%d p=%s q=%s cl=%d uripq=%s hdrs=%s rsa=%s aes=%s ran=%d status=%s seen=%s resp=%s scb=%d%s",
 				now, c18Hex([]byte(got.path)), c18Hex([]byte(got.query)), got.cl, uriFact, c18HexList(got.csValues, secret), rsaFacts,
-				c18AesOracle(c18Unhex(kv["ak"]), body, respBody), got.ran, status, c18Hex(got.seen), c18Hex(respBody), scbCount)
+				c18AesOracle(c18Unhex(kv["ak"]), body, respBody), got.ran, status, c18Hex(got.seen), c18Hex(respBody), scbCount, interOut)
 		}
 	}
 	return step, wire.close
@@ -2070,6 +2116,11 @@ func c18GenCs(r *verifh.Rng, plan *c18Plan, muts []c18CsMut, weights []int, forc
 		}
 		if r.Chance(1, 5) {
 			op += " hk=" + r.PickS("st404", "st500", "panic-err", "panic-str", "abort")
+		}
+		if o.via == "" && (strings.HasPrefix(o.label, "valid") || r.Chance(1, 10)) && r.Chance(1, 2) {
+			// another request goes through the verifier while this one sits in its handler: longer / equal / shorter / empty body
+			n := []int{len(o.body) + r.Range(1, 20), len(o.body), len(o.body) / 2, 0, r.Range(1, 40)}[r.Intn(5)]
+			op += fmt.Sprintf(" inter=%s bbody=%s", r.PickS("valid", "forged", "forged", "bare"), c18Hex(c18RandBytes(r, n)))
 		}
 		var ks []string
 		for k := range o.extra {
